@@ -1,3 +1,23 @@
 (* C02  Circuits stay well formed under every history of public mutations.
-   (theorems are added below as their proofs are completed) *)
+   Statements only; proofs live in Proofs/WF*.v.
+
+   Full statement (target):
+     Theorem C02_step_wf : forall c o c', Inv c -> op_ok c o -> step c o = Ok c' -> Inv c'.
+     Theorem C02_history_wf : forall os c c', Inv c -> history_ok c os -> foldM step os c = Ok c' -> Inv c'.
+   where Inv c := WF c /\ inputs_nullary c (INPUT gates have no operands: a companion invariant that
+   replace_inputs and the bench converters silently rely on) and op_ok collects the conditions on the
+   ARGUMENTS of a call (Proofs/WFStep.v).  The `_partial` theorems restrict the operation to the
+   constructors for which the preservation lemma is finished (`covered`). *)
 Require Import Cirbo.Model.Base Cirbo.Model.Gate Cirbo.Model.Circuit Cirbo.Model.History Cirbo.Model.WF.
+Require Import Cirbo.Proofs.WFBase Cirbo.Proofs.WFEmplace Cirbo.Proofs.WFStep.
+
+Theorem C02_empty_wf : WF empty_circuit /\ inputs_nullary empty_circuit.
+Proof. exact Inv_empty. Qed.
+
+Theorem C02_step_wf_partial : forall c o c',
+  covered o = true -> Inv c -> op_ok c o -> step c o = Ok c' -> Inv c'.
+Proof. exact step_inv_partial. Qed.
+
+Theorem C02_history_wf_partial : forall os c c',
+  forallb covered os = true -> Inv c -> history_ok c os -> foldM step os c = Ok c' -> Inv c'.
+Proof. exact history_inv_partial. Qed.
